@@ -61,7 +61,12 @@ pub struct Outcome {
 }
 
 fn work_dir() -> PathBuf {
-    verif_root().join("work").join("e2")
+    // runs against a scratch copy of the repository (VERIF_REPO) get their own directory, so they can run next to a normal check
+    if repo_root() == Path::new("/repo") {
+        verif_root().join("work").join("e2")
+    } else {
+        verif_root().join("work").join(format!("e2-{:x}", crate::ev::stable_hash(&repo_root())))
+    }
 }
 
 fn member_of(i: usize, k: usize) -> usize {
